@@ -17,18 +17,20 @@ PtrArr == {"arrPtr", "addrGArr"}
 PtrBox == {"getBox", "gb", "fieldB"}
 IntV == {"gi"}
 CtlP == {"setter", "bumper", "bump", "zero"}
+CtorP == {"ctor"}
+PcurP == {"pcur"}
 CbP == {"cbT", "cbSlice", "cbBox"}
-Plain == PtrT \cup ValT \cup SliceP \cup MapP \cup PtrInt \cup PtrArr \cup PtrBox \cup IntV
+Plain == PtrT \cup ValT \cup SliceP \cup MapP \cup PtrInt \cup PtrArr \cup PtrBox \cup IntV \cup CtorP
 InlOK == {"getT", "gp", "ifaceT", "ganyT", "ptrs0", "selfT", "gval", "getSlice", "gs", "fieldSl", "methSl", "ifaceSl", "valSl",
           "getMap", "gm", "fieldM", "ifaceM", "valM", "fieldPtr", "elemPtr", "arrPtr", "getBox", "gb", "fieldB", "gi"}
 
 TypOf(p) == CASE p \in PtrT \cup {"cbT"} -> "ptrT" [] p \in ValT -> "valT" [] p \in SliceP \cup {"cbSlice"} -> "sliceInt"
               [] p \in MapP -> "mapSI" [] p \in PtrInt -> "ptrInt" [] p \in PtrArr -> "ptrArr"
-              [] p \in PtrBox \cup {"cbBox"} -> "ptrBox" [] p \in IntV -> "intv" [] OTHER -> "ctl"
+              [] p \in PtrBox \cup {"cbBox"} -> "ptrBox" [] p \in IntV -> "intv" [] p \in CtorP -> "ctor" [] p \in PcurP -> "pcur" [] OTHER -> "ctl"
 ViaOf(p) == CASE p = "setter" -> <<C("R", "R")>> [] p \in {"bumper", "bump"} -> <<M("R", "R")>> [] p = "zero" -> <<X("R")>> [] OTHER -> <<>>
 
-MCPaths == {[name |-> p, typ |-> TypOf(p), inl |-> (p \in InlOK), pname |-> (TypOf(p) \notin {"ptrT", "valT", "ctl"}), via |-> ViaOf(p)]
-            : p \in Plain \cup CtlP \cup CbP}
+MCPaths == {[name |-> p, typ |-> TypOf(p), inl |-> (p \in InlOK), pname |-> (TypOf(p) \notin {"ptrT", "valT", "ctl", "ctor", "pcur"}), via |-> ViaOf(p)]
+            : p \in Plain \cup CtlP \cup CbP \cup PcurP}
 
 WK(nm, ty) == [name |-> nm, typ |-> ty, via |-> <<>>, needcur |-> FALSE]
 WKL(nm, ty) == [name |-> nm, typ |-> ty, via |-> <<M("L", "R")>>, needcur |-> FALSE]
@@ -43,6 +45,8 @@ MCWrites ==
   \cup {WK(x, "ptrBox") : x \in {"bV", "bTags", "bKids", "bDel", "bWhole", "bInc"}}
   \cup {WKL(x, "ptrBox") : x \in {"boxSet", "boxTag", "boxPut", "boxMV", "boxDeferSet"}}
   \cup {WK(x, "intv") : x \in {"iSet", "iInc", "iOp"}}
+  \cup {WK(x, "ctor") : x \in {"cLit", "cPtr", "cNew", "cInner", "cConv"}}
+  \cup {WK(x, "pcur") : x \in {"rVar", "rPrev", "rField", "rSlice", "rMap", "rClosure", "rAny"}}
   \cup {[name |-> "call", typ |-> "ctl", via |-> <<>>, needcur |-> FALSE]}
 
 NoCur == {"bumper", "bump", "setter"}
@@ -57,7 +61,7 @@ MCCtxs == {
   CX("s_fn_Rx", <<X("R"), F("S")>>, Plain, FALSE, TRUE, FALSE),
   CX("s_fn_Rnc", <<F("R"), F("S")>>, Plain, FALSE, TRUE, FALSE),
   CX("s_clo_L", <<F("L"), C("S", "S")>>, Plain, FALSE, TRUE, FALSE),
-  CX("a_cross", <<X("A")>>, Plain \cup CtlP, FALSE, TRUE, TRUE),
+  CX("a_cross", <<X("A")>>, Plain \cup CtlP \cup PcurP, FALSE, TRUE, TRUE),
   CX("a_nc", <<F("A")>>, Plain \cup NoCur, FALSE, TRUE, FALSE),
   CX("a_clo_Rx", <<X("A"), X("R"), C("A", "A")>>, Plain, FALSE, TRUE, FALSE),
   CX("a_fn_Rx", <<X("A"), X("R"), F("A")>>, Plain, FALSE, TRUE, FALSE),
